@@ -399,7 +399,7 @@ theorem implKnownField_noNil (hc : ChildNoNil c) {S : Schema} {fs : List FieldDe
         · simp at h
         · split at h
           · simp at h
-          · cases he : implEntryLoop c S kk f.elem n r n (Elem.zeroVar (.scalar kk)) f.elem.zeroVar with
+          · cases he : implEntryLoop c S kk f.elem n (r.take n) n (Elem.zeroVar (.scalar kk)) f.elem.zeroVar with
             | ok b =>
               obtain ⟨k', v'⟩ := b
               rw [he] at h
